@@ -46,6 +46,29 @@ def global_flags(cpu, regs):
     return out
 
 
+def probes(cpu, E, mapper, regs):
+    """values of sign-sensitive expressions freshly built over the module's own register objects (all bits set): what a user
+    gets who builds `r >> 1`, `r < 1` or `r ** r` now.  A history that left a signed view on a shared register changes them."""
+    out = {}
+    for r in regs:
+        if r.size < 2:
+            continue
+        try:
+            m = mapper()
+            m[r] = E.cst((1 << r.size) - 1, r.size)
+            vals = []
+            for f in (lambda: r >> 1, lambda: E.oper("<", r, E.cst(1, r.size)), lambda: r ** r, lambda: E.oper("/", r, E.cst(3, r.size))):
+                try:
+                    v = m(f())
+                    vals.append((v.v & ((1 << v.size) - 1), v.size) if v._is_cst else "sym")
+                except Exception as x:
+                    vals.append("raised " + type(x).__name__)
+            out[str(r)] = tuple(vals)
+        except Exception:
+            pass
+    return out
+
+
 def evaluate(cpu, E, mapper, m, states, regs):
     """concrete results of a map on the given states: per state the tuple of register values and a memory digest"""
     out = []
@@ -85,14 +108,19 @@ def case(args):
     name, k, seed = args
     from amoco.cas import expressions as E
     from amoco.cas.mapper import mapper
+    from amoco.config import conf
     cpus, _ = isa.load_all()
     cpu = cpus[name]
     dis = cpu.disassemble
     res = {"name": name, "mode": k, "ok": False, "find": None, "nontrivial": False}
     if not hasattr(dis.iclass, "_uarch"):
         return res
+    import resource
+    resource.setrlimit(resource.RLIMIT_AS, (5 << 30, 5 << 30))
     signal.signal(signal.SIGALRM, _alarm)
-    signal.alarm(60)
+    signal.signal(signal.SIGPROF, _alarm)
+    signal.alarm(90)
+    signal.setitimer(signal.ITIMER_PROF, 60)
     try:
         rng = random.Random(seed)
         specs, _ = c04.mode_specs(dis, k)
@@ -125,6 +153,11 @@ def case(args):
                     regvals.append((r, v & X.mask(r.size)))
                 states.append((regvals, bytes(rng.getrandbits(8) for _ in range(c02.MEMLEN))))
             g0 = global_flags(cpu, regs)
+            p0 = probes(cpu, E, mapper, regs)
+            if rng.random() < 0.35:
+                # the aliasing assumption switched off: loads carry the stores they may alias, and replay them when evaluated
+                conf.Cas.noaliasing = False
+                res["noaliasing"] = False
             # ---- B first
             B0 = decode_all(dis, bblobs)
             if not B0:
@@ -197,6 +230,11 @@ def case(args):
                 what = "rebuilt-map"
             elif v2 != v0:
                 what = "re-executed-instructions"
+            p1 = probes(cpu, E, mapper, regs)
+            if what is None and p1 != p0:
+                ch = sorted(kk for kk in p1 if p1.get(kk) != p0.get(kk))
+                what = "fresh-expressions-over-registers"
+                v0, v1 = [p0.get(kk) for kk in ch[:3]], [p1.get(kk) for kk in ch[:3]]
             if what:
                 cause = culprit or first_self or ("?", [])
                 switches = [c for c in cause[1] if c.startswith("internals.")]
@@ -207,11 +245,14 @@ def case(args):
                                "replay": {"isa": name, "mode": k, "seed": seed, "block": [b.hex() for b in bblobs], "history": [b.hex() for b in hblobs],
                                           "symptom": what, "culprit": cause}}
     except Timeout:
-        pass
+        res["error"] = "time limit (60 s CPU)"
+    except MemoryError:
+        res["error"] = "memory limit (5 GB)"
     except Exception as x:
         res["error"] = "%s: %r" % (type(x).__name__, x)
     finally:
         signal.alarm(0)
+        signal.setitimer(signal.ITIMER_PROF, 0)
     return res
 
 
